@@ -7,7 +7,16 @@ from vcommon import Check, InternalError, ROOT, main_wrapper, run_impl, gz, gnat
 
 NJ = 7            # job universe 0..NJ-1 (the driver knows 8)
 ENDS = ["ok", "exc", "kill_in", "kill_moving", "kill_locked", "kill_exit", "kill_wait"]
-END_W = [34, 20, 14, 9, 4, 11, 8]
+END_W = [34, 24, 12, 8, 4, 10, 8]
+# what a raising block raises (keys of EXC in the driver): instances of Exception ...
+EXC_ERR = ["error", "error", "oserror", "both", "excgroup"]
+# ... and BaseExceptions that are not Exceptions (sys.exit, Ctrl-C, a closed generator, a cancelled coroutine, ...)
+EXC_BASE = ["sysexit0", "sysexit1", "sysexit1", "sysexitmsg", "kbint", "kbint", "cancelled", "halt", "basegroup", "genexit"]
+VIAS = ["fall", "fall", "fall", "return", "break"]     # ways of leaving the block without exception
+
+
+def gen_exc(rng):
+    return rng.choice(EXC_BASE if rng.random() < 0.55 else EXC_ERR)
 
 
 # ---------------------------------------------------------------- generator
@@ -22,6 +31,10 @@ def gen_run(rng, first):
         run["rm"] = sorted({x for x in range(NJ) if x not in jobs and rng.random() < 0.3})
     if end in ("exc", "kill_in"):
         run["k"] = rng.randint(0, len(jobs))
+    if end == "exc":
+        run["exc"] = gen_exc(rng)
+    if end == "ok":
+        run["via"] = rng.choice(VIAS)
     elif end == "kill_moving":
         run["k"] = rng.choice([0, 0, 0, 1, 1, 2])
     elif end == "kill_exit":
@@ -46,7 +59,7 @@ def gen_excl(rng):
     p1 = [rng.randrange(NJ) for _ in range(rng.choice([1, 1, 2, 3]))]
     p2 = [rng.randrange(NJ) for _ in range(rng.choice([0, 1, 2, 3]))]
     return dict(kind="excl", pre=pre, p1=p1, p2=p2, mk=sorted(set(p1) | set(p2)),
-                leave=rng.choice(["ok", "exc", "kill"]), wait=0.4)
+                leave=rng.choice(["ok", "exc", "exc", "kill"]), exc=gen_exc(rng), wait=0.4)
 
 
 def gen_excl3(rng):
@@ -57,7 +70,7 @@ def gen_excl3(rng):
         pre.append(r)
     a, b_, c_ = ([rng.randrange(NJ) for _ in range(rng.choice([1, 1, 2]))] for _ in range(3))
     return dict(kind="excl3", pre=pre, a=a, b=b_, c=c_, mk=sorted(set(a) | set(b_) | set(c_)),
-                leave=rng.choice(["ok", "exc"]), third=rng.choice(["new", "relaunch"]), wait=0.4)
+                leave=rng.choice(["ok", "exc"]), exc=gen_exc(rng), third=rng.choice(["new", "relaunch"]), wait=0.4)
 
 
 # ---------------------------------------------------------------- reading a run's record
@@ -106,6 +119,12 @@ def ev(name, p=None, x=None):
     return f"Ev ({s})"
 
 
+def ev_exc(p, log, tag=""):
+    """The block raised: the class the implementation was handed (recorded by the driver from the exception
+    object itself); a context that raised by itself counts as an ordinary error."""
+    return f"Ev (EndExc {gnat(p)} {'ExcExit' if tag + 'exc-class base' in log else 'ExcError'})"
+
+
 def run_items(p, run, res, pre):
     """The steps the implementation took in this run, read from its log and from the index
     before/after (which links were moved / removed / made is the implementation's choice)."""
@@ -126,7 +145,7 @@ def run_items(p, run, res, pre):
     items += [ev("Submit", p, x) for x in subs_of(log)]
     items += [ev("Link", p, n) for n in jpost]
     if "raise" in log or any(l.startswith("error") for l in log):
-        items.append(ev("EndExc", p))
+        items.append(ev_exc(p, log))
     elif "kill in" in log:
         items.append(ev("Kill", p))
     elif "endblock" in log:
@@ -172,7 +191,7 @@ def case_items(case, res):
     if case["leave"] == "ok":
         items += [ev("EndOk", p1)] + [ev("RmEntry", p1, n) for n in names(held["bak"])] + [ev("RmBakDir", p1), ev("Done", p1)]
     elif case["leave"] == "exc":
-        items.append(ev("EndExc", p1))
+        items.append(ev_exc(p1, res["p1_log"]))
     else:
         items.append(ev("Kill", p1))
     mid = res["s_p2in"]
@@ -202,7 +221,7 @@ def excl3_items(case, res, pre):
     if not res["b_early"]:
         items.append(f"Blocked (Lock {gnat(pb)})")
     items.append(g_obs(res["s_bwait"]))
-    items += leave_ok_items(pa, res["s_a"]) if case["leave"] == "ok" else [ev("EndExc", pa)]
+    items += leave_ok_items(pa, res["s_a"]) if case["leave"] == "ok" else [ev_exc(pa, logs["a"], "A ")]
     items += enter_items(pb, res["s_a"], tsubs(logs, "B"), res["s_b"])
     if not res["c_early"]:
         items.append(f"Blocked (Lock {gnat(pc)})")
@@ -224,6 +243,7 @@ class Oracle:
     def __init__(self):
         self.keep = set()      # jobs linked by the last run whose block ended without exception, and by every later run
         self.found = []        # (key, what, run index)
+        self.prev = EMPTY      # the index as the previous run left it
 
     def flag(self, key, what, i):
         self.found.append((key, what, i))
@@ -252,6 +272,14 @@ class Oracle:
             if bad:
                 self.flag("C16:kept-job-orphan", f"orphans reports {bad}, jobs of the last completed plan / of aborted runs", i)
 
+    def raised_keeps(self, pre, snap, i, how):
+        """If the block raises - whatever it raises - the previous index is kept as backup."""
+        gone = sorted(set(names(pre["jobs"])) - set(names(snap["bak"])))
+        if gone:
+            self.flag("C16:previous-index-not-kept-after-raise",
+                      f"the block was left through an exception ({how}) but the links {gone} of the index found on entry "
+                      f"are not in jobs.bak/ afterwards (jobs.bak = {'absent' if snap['bak'] is None else names(snap['bak'])})", i)
+
     def run(self, res, i):
         log, snap = res["log"], res["snap"]
         subs = subs_of(log)
@@ -270,6 +298,9 @@ class Oracle:
         elif "entered" in log:
             self.keep |= made
         self.kept(snap, i)
+        if "raise" in log and "exc-out" in log:
+            self.raised_keeps(self.prev, snap, i, "an Exception" if "exc-class error" in log else "not an Exception: sys.exit, KeyboardInterrupt, ...")
+        self.prev = snap
 
 
 def oracle_case(case, res):
@@ -298,6 +329,8 @@ def oracle_case(case, res):
         o.keep = set(names(res["s_held"]["jobs"])) & set(subs_of(res["p1_log"]))
     if res["p2_after"] and not res.get("p2_timeout"):
         o.kept(res["s_p2in"], n + 1)
+        if case["leave"] == "exc" and "exc-out" in res["p1_log"]:
+            o.raised_keeps(o.prev, res["s_p2in"], n, "exception kind " + case.get("exc", "error"))
         o.links_ok(res["s_end"], n + 1)
         if "exited" in res["p2_log"]:
             o.completed(res["s_end"], subs_of(res["p2_log"]), n + 1)
@@ -339,6 +372,8 @@ def oracle_excl3(o, case, res, n):
     o.kept(res["s_bwait"], n)
     if case["leave"] == "ok":
         o.keep = made_a
+    if case["leave"] == "exc" and "A exc-out" in logs["a"]:
+        o.raised_keeps(o.prev, res["s_b"], n, "exception kind " + case.get("exc", "error"))
     o.links_ok(res["s_b"], n + 1)
     made_b = set(names(res["s_b"]["jobs"])) & set(tsubs(logs, "B"))
     o.keep |= made_b
@@ -424,7 +459,9 @@ def shrink(c, case, key):
 
 def run(c: Check):
     c.rule = ("random histories of 1-6 runs of one experiment on one workspace (0-5 submits each out of 7 jobs; ending "
-              "normally, raising after k submits, killed after k submits, killed inside __enter__ before/after k moves, "
+              "normally (falling off the block, return, break), raising after k submits (Exception subclasses and groups; "
+              "non-Exception BaseExceptions: sys.exit(0/1/msg), KeyboardInterrupt, asyncio.CancelledError, a user BaseException, "
+              "a BaseExceptionGroup, GeneratorExit of a closed generator), killed after k submits, killed inside __enter__ before/after k moves, "
               "killed inside __exit__ after k removals or in wait()) plus two-process probes and three-process lock hand-over "
               "probes (A inside, B waiting, A leaves through __exit__, B inside, C or A again contends); non-trivial = a history "
               "with a completed run followed by at least one aborted or killed run, or a probe; distinct by canonical case")
@@ -465,8 +502,12 @@ def run(c: Check):
             c.count(f"runs={len(rs)}")
         elif case["kind"] == "excl3":
             c.count(f"probe3:leave={case['leave']},third={case['third']}")
+            if case["leave"] == "exc":
+                c.count("probe-raised:" + case.get("exc", "error"))
         else:
             c.count("probe-leave:" + case["leave"])
+            if case["leave"] == "exc":
+                c.count("probe-raised:" + case.get("exc", "error"))
         seen_ok, nontrivial = False, case["kind"] != "hist"
         prev = EMPTY
         for run_, r in zip(rs, rr):
@@ -480,6 +521,13 @@ def run(c: Check):
                 c.count("killed-with-backup-partly-removed")
             prev = r["snap"]
             c.count("end:" + run_["end"])
+            if "raise" in r["log"]:
+                c.count("raised:" + run_.get("exc", "error"))
+                c.count("raised-class:" + ("not-an-Exception" if "exc-class base" in r["log"] else "Exception"))
+                if "exc-class base" in r["log"] and (jp | bp) - set(names(r["snap"]["jobs"])):
+                    c.count("left-through-non-Exception-with-previous-links-not-relinked")
+            if "exited" in r["log"]:
+                c.count("ok-via:" + run_.get("via", "fall"))
             c.count(f"submits={len(subs_of(r['log']))}")
             reached = ("exited" if "exited" in r["log"] else "exc" if "raise" in r["log"] else
                        [l for l in r["log"] if l.startswith("kill")][-1].rstrip(" 0123456789") if any(l.startswith("kill") for l in r["log"]) else "other")
